@@ -91,6 +91,9 @@ def run(ck, ctx):
                      "unsorted Vec/queue, feed a shared hasher, pick 'the first' element, or draw from the seeded RNG per element")
     ck.rule("R20.4", "event order is not hash-based: Ord for Event compares virtual time only and the queue is a BinaryHeap; simulated time "
                      "is written only by the simulator's own advance functions")
+    ck.rule("R20.5", "fault decisions are a function of the current configuration and the seeded RNG only: in should_buggify* the threshold "
+                     "the random draw is compared with comes from FaultConfig::get on the context's current config (or from the probability "
+                     "parameter) - never from state that survives set_config (a cache, a counter) - and the draw comes from the RNG argument")
     ck.nd("equality of traces across processes (needs two runs - a different family)")
     ck.assume("trait-dispatched calls inside generic code are not followed: a production implementation can only be dispatched to if its type "
               "is named in reachable code, which R20.1 checks")
@@ -109,6 +112,7 @@ def run(ck, ctx):
         _r202(ck, prog, cfg, seen)
         _r203(ck, prog, cfg, seen, built)
         _r204(ck, prog, cfg)
+        _r205(ck, prog, cfg)
 
 
 def _constructed_commands(prog, seen):
@@ -279,3 +283,43 @@ def _r204(ck, prog, cfg):
                         ck.check(fl["t"].startswith("std::collections::BinaryHeap<"), "R20.4", "event-queue-type" + _tag(cfg),
                                  "the event queue is a %s" % fl["t"], None, detail=fl["t"])
     ck.check(heap, "R20.4", "event-queue-found" + _tag(cfg), "event queue field not found (anchor lost)", None)
+
+
+def _r205(ck, prog, cfg):
+    n = 0
+    for f in prog.lib_fns():
+        if not re.search(r"^buggify::should_buggify(_with_prob)?::\{closure#0\}$", f.id):
+            continue
+        for b, i, st in f.stmts():
+            rv = st["rv"]
+            if rv["k"] != "bin" or rv["op"] not in ("Lt", "Le", "Gt", "Ge"):
+                continue
+            for side in ("a", "b"):
+                o = rv[side]
+                if "c" in o:
+                    continue
+                s = src_of_operand(f, o, through_calls=TRANSPARENT + (r"f64::clamp$", r"::clamp$", r"::min$", r"::max$"))
+                n += 1
+                key = "%s:cmp#%d:%s%s" % (f.id.replace("::{closure#0}", ""), n, side, _tag(cfg))
+                if s.kind == "call" and is_callee(s.term, r"FaultConfig::get$"):
+                    recv = src_of_operand(f, s.term["args"][0], through_calls=TRANSPARENT + (r"Deref>::deref$", r"DerefMut>::deref_mut$", r"RefCell::<.*>::borrow(_mut)?$"))
+                    good = "config" in recv.fields or recv.path().endswith("config")
+                    ck.check(good, "R20.5", key, "the fault probability is read from %s, not from the context's current config" % recv.path(), f.where(st["ln"]),
+                             detail="FaultConfig::get(ctx.config, id)")
+                elif s.kind == "path" and (s.root or "").startswith(("probability", "_1")) or (s.kind == "path" and "probability" in (s.root or "") + ".".join(s.fields)):
+                    ck.ok("R20.5", key, "probability parameter")
+                elif s.kind == "rv" and s.rv["k"] in ("bin", "cast"):
+                    # random_value = gen_range(..) as f64 / 1e6
+                    inner = src_of_operand(f, s.rv["a"])
+                    root = inner
+                    hops = 0
+                    while root.kind == "rv" and hops < 4:
+                        root = src_of_operand(f, root.rv["a"])
+                        hops += 1
+                    good = root.kind == "call" and is_callee(root.term, r"io::Rng>::gen_range$", r"Rng>::gen_")
+                    ck.check(good, "R20.5", key, "the compared value is computed from %s, not drawn from the RNG argument" % root.path(), f.where(st["ln"]),
+                             detail="draw from the rng parameter")
+                else:
+                    ck.bad("R20.5", key, "the fault decision compares a value of unrecognised origin (%s: %s): if it can survive a change of "
+                           "configuration (cache, counter) the run is no longer a function of seed and configuration" % (s.kind, s.path()[:80]), f.where(st["ln"]))
+    ck.floor("R20.5" + _tag(cfg), n, 3)
